@@ -298,6 +298,12 @@ def run(chk):
     for s, o in list(zip(scns, obss))[:3]:
         chk.sample({"mode": s["mode"], "strategy": s["strategy"], "plan": [(e["dir"], e["rel"], e["r"]) for e in s["plan"]][:4],
                     "status": o["status"], "calls": o["raw_calls"][:3]})
+    # the whole-program model (Whole/*.v), on which this property's whole-program theorems rest, against the real command line
+    import whole as _whole
+    import random as _random
+    _ws = {}
+    _whole.whole_stream(chk, _random.Random(chk.seed * 7919 + 6), 60 if chk.tier == "quick" else 2500, _ws)
+    chk.notes["whole_program_tie"] = _ws
     chk.coverage["rule"] = (
         "generated trees with a look-alike sibling 'in2' of the input directory 'in', a decoy directory 'out', links leading outside, "
         "the input directory reachable through a symlink, 1-3 input roots; injected plans whose destinations include '..' chains, "
